@@ -112,13 +112,13 @@ def replay(prop, path):
 
 
 def limit_memory():
-    """Soft address-space limit for a shard process (VERIF_SHARD_MEM_GB, default 10): a library change that makes a
+    """Soft address-space limit for a shard process (VERIF_SHARD_MEM_GB, default 6): a library change that makes a
     routine loop while appending to a list would otherwise eat the machine before the per-case wall-clock guard fires;
     with the limit the routine dies with MemoryError, which is reported like any other exception of the library.
     Only the soft limit is set, so sanitizer children (which need a huge address space) lift it again."""
     try:
         import resource
-        gb = float(os.environ.get("VERIF_SHARD_MEM_GB", "10"))
+        gb = float(os.environ.get("VERIF_SHARD_MEM_GB", "6"))
         if gb > 0:
             soft, hard = resource.getrlimit(resource.RLIMIT_AS)
             want = int(gb * 2 ** 30)
